@@ -1,7 +1,11 @@
 SPECIFICATION Spec
 CONSTANTS
-  MaxDay = 20000
-  ImplFrom = 10592
-  ImplTo = 12053
-INVARIANTS CivilOK WeekdayOK MonthLenOK Cycle400 MinuteOK ZoneRuleOK SpotChecks OracleTable ImplEqualsRef ExplicitEmptyGap GatingRefines
+  MaxDay = 146462
+  ZoneTo = 49700
+  OracleWindows <- MCOracleWindows
+  ImplFrom = 10900
+  ImplTo = 11400
+  GateFrom = 10940
+  GateTo = 11020
+INVARIANTS CivilOK WeekdayOK MonthLenOK Cycle400 MinuteOK ZoneRuleOK OracleTable ImplEqualsRef ExplicitEmptyGap GatingRefines
 CHECK_DEADLOCK FALSE
